@@ -816,11 +816,162 @@ Definition c11_stop_run (case obs : sx) : verdict :=
   | _, _ => BadCase
   end.
 
+(* ---- which = 12 / 13: the request HEADERS and the META configuration as part of the case ---------------------------------
+   Everything ServeHTTP does in front of serveBulk is handed the whole *http.Request: auth reads headers,
+   newMetaInformation / GetData / the meta templates get the request itself (http.go:427-433, 681-712).  net/http offers
+   methods on it that READ THE BODY depending on the request's headers (ParseForm / FormValue for Content-Type
+   application/x-www-form-urlencoded, ParseMultipartForm / MultipartReader for multipart/form-data).  The property
+   speaks about "any request body": none of the headers, the query, the framing or the configured templates may change
+   what is handed over.  In this model they are arguments that reach ONLY the meta that travels with the events:
+     tmpls     config.Meta = ((name, template source) ...)
+     hdrs      the header lines of the request beyond those the route model interprets (Content-Type, User-Agent, ...)
+     h_xq      raw text appended to the query;  h_fl  how the request is framed (Content-Length / chunked / unknown)
+     render    text/template + fmt: ANY function of the template source, the login, the client address and the request
+               (a Section variable without hypotheses: the theorems hold for every renderer)
+   An In call = (data, meta): processBulk hands the SAME rendered meta to every controller.In of the request. *)
+Definition tmpls := list (bytes * bytes).
+Definition headers := list (bytes * bytes).
+Record hreq := mkHReq { h_req : rreq; h_hdrs : headers; h_xq : bytes; h_fl : Z }.
+Definition meta_t := list (bytes * bytes).
+
+Section Render.
+  Variable render : bytes -> bytes -> bytes -> hreq -> bytes.   (* template, login, client address, request -> text *)
+
+  (* metaTemplater.Render(newMetaInformation(login, getUserIP(r), r)): one value per configured template *)
+  Definition hmeta (c : rcfg) (tm : tmpls) (h : hreq) : meta_t :=
+    match auth c (h_req h) with
+    | AuthOk login => map (fun t => (fst t, render (snd t) login (pick_ip (h_req h)) h)) tm
+    | _ => []
+    end.
+
+  (* ServeHTTP on a request with headers, on a plugin with templates: (In calls, status, class) *)
+  Definition route_h (c : rcfg) (tm : tmpls) (h : hreq) : list (bytes * meta_t) * Z * Z :=
+    let '(evs, st, cl) := route c (h_req h) in
+    (map (fun e => (e, hmeta c tm h)) evs, st, cl).
+End Render.
+
+(* the renderer of the extracted judge: the meta TEXT is not part of the observable of these streams (the meta cache of
+   pipeline/metadata may answer with the text of an earlier request), the number of keys is *)
+Definition render0 (_ _ _ : bytes) (_ : hreq) : bytes := [].
+
+Definition nmeta_of (calls : list (bytes * meta_t)) : Z :=
+  match calls with [] => 0 | cm :: _ => Z.of_nat (length (snd cm)) end.
+
+(* header names the glue rejects: those the route model interprets itself (Origin, Authorization and the configured /
+   used auth header, the client-address headers, Content-Encoding) and those the harness' framing sets *)
+Definition H_RESERVED : list bytes :=
+  [[111;114;105;103;105;110];                                             (* origin *)
+   [97;117;116;104;111;114;105;122;97;116;105;111;110];                  (* authorization *)
+   [99;102;45;99;111;110;110;101;99;116;105;110;103;45;105;112];         (* cf-connecting-ip *)
+   [120;45;102;111;114;119;97;114;100;101;100;45;102;111;114];           (* x-forwarded-for *)
+   [120;45;114;101;97;108;45;105;112];                                   (* x-real-ip *)
+   [99;111;110;116;101;110;116;45;101;110;99;111;100;105;110;103];       (* content-encoding *)
+   [104;111;115;116];                                                    (* host *)
+   [99;111;110;110;101;99;116;105;111;110];                              (* connection *)
+   [99;111;110;116;101;110;116;45;108;101;110;103;116;104];              (* content-length *)
+   [116;114;97;110;115;102;101;114;45;101;110;99;111;100;105;110;103];   (* transfer-encoding *)
+   [101;120;112;101;99;116];                                             (* expect *)
+   [116;114;97;105;108;101;114]]%N.                                      (* trailer *)
+Definition tchar (ch : byte) : bool :=
+  (N.leb 48 ch && N.leb ch 57) || (N.leb 65 ch && N.leb ch 90) || (N.leb 97 ch && N.leb ch 122) || N.eqb ch 45.
+Definition hdr_ok (c : rcfg) (q : rreq) (nv : bytes * bytes) : bool :=
+  let l := map lower_b (fst nv) in
+  negb (is_nil l) && forallb tchar l && forallb (fun ch => N.leb 32 ch && N.leb ch 126) (snd nv) &&
+  negb (existsb (N_eqb_list l) H_RESERVED) &&
+  negb (N_eqb_list l (map lower_b (c_hdr c))) && negb (N_eqb_list l (map lower_b (q_hsel q))).
+Definition tmpls_of_sx (s : sx) : option tmpls :=
+  match as_list pair_of_sx s with
+  | Some tm => if distinct (map fst tm) then Some tm else None
+  | None => None
+  end.
+
+(* the property's judgement of one request, given what was observed: as for which = 9 *)
+Definition route_obs_ok (c : rcfg) (q : rreq) (reads oevs : sx) (ost : Z) : bool :=
+  match oevs with
+  | SL evs =>
+      if ingests c q then c11_pred reads (SL [SL evs; SZ ost])
+      else is_nil evs && (authorised c q || Z.eqb (q_method q) 2 || negb (Z.eqb ost 200))
+  | _ => false
+  end.
+
+(* which = 12: case = (cfg tmpls (hrequest ...)), hrequest = (request ((#name #value) ...) #xq fl);
+   obs = (((event ...) status class #allow-origin nmeta) ...) *)
+Definition hroute_one (c : rcfg) (tm : tmpls) (r o : sx) : option (sx * bool) :=
+  match r with
+  | SL [rq; hs; SB xq; SZ fl] =>
+      match req_of_sx rq, as_list pair_of_sx hs with
+      | Some (q, reads), Some hdrs =>
+          if cred_ok (q_cred q) && forallb (hdr_ok c q) hdrs && Z.leb 0 fl && Z.leb fl 2 then
+            let '(calls, st, cl) := route_h render0 c tm (mkHReq q hdrs xq fl) in
+            let m := SL [SL (map SB (map fst calls)); SZ st; SZ cl; SB (allow_origin c (q_origin q)); SZ (nmeta_of calls)] in
+            let ok := match o with
+                      | SL [oevs; SZ ost; _; _; _] => route_obs_ok c q reads oevs ost
+                      | _ => false
+                      end in
+            Some (m, ok)
+          else None
+      | _, _ => None
+      end
+  | _ => None
+  end.
+
+Definition c11_hroute_run (case obs : sx) : verdict :=
+  match case with
+  | SL [cfg; tms; reqs] =>
+      match cfg_of_sx cfg, tmpls_of_sx tms with
+      | Some c, Some tm =>
+          if cfg_ok c && Bool.eqb (c_meta c) (negb (is_nil tm)) then pairs_run (hroute_one c tm) reqs obs else BadCase
+      | _, _ => BadCase
+      end
+  | _ => BadCase
+  end.
+
+(* which = 13: the same over the plugin's own listener: case = ((tls framing) tmpls (wrequest ...)),
+   wrequest = (gz piece (#write ...) ((#name #value) ...) #target odd): a POST of the given target on a plugin without
+   auth / emulation; the body arrives as the transport likes (c11_http_chunking), [odd] = a framing oddity the net/http
+   server accepts (Expect: 100-continue, chunk extensions, a trailer, "Chunked", Transfer-Encoding + Content-Length,
+   HTTP/1.0).  obs = (((event ...) status nmeta) ...) *)
+Definition wire_cfg (tm : tmpls) : rcfg := mkCfg 0 0 [] [] [] (negb (is_nil tm)).
+Definition wire_req (target : bytes) (gz : bool) (rds : list rd) : rreq :=
+  let no := mkIp [] false in mkReq 0 target [] CNone [] no no no no [] gz rds.
+
+Definition hwire_one (tm : tmpls) (r o : sx) : option (sx * bool) :=
+  match r with
+  | SL [SZ gz; SZ _; SL ws; hs; SB target; SZ odd] =>
+      match as_list rd_of_sx (SL ws), as_list pair_of_sx hs with
+      | Some rds, Some hdrs =>
+          let c := wire_cfg tm in
+          let q := wire_req target (Z.eqb gz 1) rds in
+          if (Z.eqb gz 0 || Z.eqb gz 1) && all_bytes ws && forallb (hdr_ok c q) hdrs && Z.leb 0 odd && Z.leb odd 6 then
+            let '(calls, st, _) := route_h render0 c tm (mkHReq q hdrs [] odd) in
+            let m := SL [SL (map SB (map fst calls)); SZ st; SZ (nmeta_of calls)] in
+            let ok := match o with
+                      | SL [oevs; SZ ost; _] => route_obs_ok c q (SL ws) oevs ost
+                      | _ => false
+                      end in
+            Some (m, ok)
+          else None
+      | _, _ => None
+      end
+  | _ => None
+  end.
+
+Definition c11_hwire_run (case obs : sx) : verdict :=
+  match case with
+  | SL [SL cfg; tms; reqs] =>
+      match tmpls_of_sx tms with
+      | Some tm => if all_ints cfg then pairs_run (hwire_one tm) reqs obs else BadCase
+      | None => BadCase
+      end
+  | _ => BadCase
+  end.
+
 (* entry point of the model runner (extracted, and evaluated by vm_compute in the cross-check):
    0 / 2 = one request (plain / gzip), 1 = source-id pool, 3 = concurrent requests, 4 = gzip request history,
    5 = one request with reads that return data together with an error, 6 = gzip histories with failing bodies,
    7 = phases of concurrent requests on one plugin, 8 = gated histories, 9 = routed requests (auth / CORS / meta /
-   emulate mode), 10 = requests over the plugin's own listener, 11 = Stop with a request in flight *)
+   emulate mode), 10 = requests over the plugin's own listener, 11 = Stop with a request in flight, 12 = routed requests with
+   arbitrary headers on a plugin with arbitrary meta templates, 13 = the same over the plugin's own listener *)
 Definition c11_entry (which : Z) (case obs : sx) : verdict :=
   match which with
   | 0 | 2 => c11_run case obs
@@ -833,6 +984,8 @@ Definition c11_entry (which : Z) (case obs : sx) : verdict :=
   | 9 => c11_route_run case obs
   | 10 => c11_wire_run case obs
   | 11 => c11_stop_run case obs
+  | 12 => c11_hroute_run case obs
+  | 13 => c11_hwire_run case obs
   | _ => match c11_id_model case with
          | Some m => exact_verdict m obs
          | None => BadCase
